@@ -1,11 +1,11 @@
 package core
 
 import (
-	"sort"
 	"fmt"
 	"go/ast"
 	"go/token"
 	"go/types"
+	"sort"
 	"strings"
 )
 
@@ -221,9 +221,9 @@ type Dominated struct {
 	Sink   SinkPred
 	Need   []Fact
 	AnyOf  [][]Fact // alternatively: at least one of these fact sets must hold entirely
-	Unless []Fact // an exempting fact (frozen exception) — must carry a reason
-	Reason string // reason for Unless
-	Min    int    // minimum number of sinks expected in Fn
+	Unless []Fact   // an exempting fact (frozen exception) — must carry a reason
+	Reason string   // reason for Unless
+	Min    int      // minimum number of sinks expected in Fn
 	// SkipSink lets a rule drop individual sinks with a reason.
 	SkipSink func(fl *Flow, n *GNode) (skip bool, reason string)
 }
@@ -630,6 +630,20 @@ func implies(a, b token.Token) bool {
 func Mentions(quals ...string) ExprPred {
 	return func(c *Ctx, e ast.Expr) bool {
 		for _, q := range quals {
+			if !derivedQual(c, e, q, 2) {
+				return false
+			}
+		}
+		return true
+	}
+}
+
+// MentionsDirect is the purely syntactic form of Mentions (no local variable is
+// followed): used where the rule needs "does not involve X" and a variable
+// derived from X is still a different operand.
+func MentionsDirect(quals ...string) ExprPred {
+	return func(c *Ctx, e ast.Expr) bool {
+		for _, q := range quals {
 			if !mentionsQual(c, e, q) {
 				return false
 			}
@@ -642,7 +656,7 @@ func Mentions(quals ...string) ExprPred {
 func MentionsAny(quals ...string) ExprPred {
 	return func(c *Ctx, e ast.Expr) bool {
 		for _, q := range quals {
-			if mentionsQual(c, e, q) {
+			if derivedQual(c, e, q, 2) {
 				return true
 			}
 		}
@@ -742,8 +756,55 @@ func mentionsQual(c *Ctx, e ast.Node, q string) bool {
 	return found
 }
 
-// CallsAny builds an ExprPred: the expression contains a call to one of names.
+// CallsAny builds an ExprPred: the expression contains a call to one of names,
+// directly or through local variables all of whose definitions contain one
+// (two levels).
 func CallsAny(names ...string) ExprPred {
+	ns := Names(names...)
+	var rec func(c *Ctx, e ast.Node, depth int) bool
+	rec = func(c *Ctx, e ast.Node, depth int) bool {
+		found := false
+		InspectNode(e, func(x ast.Node) bool {
+			if call, ok := x.(*ast.CallExpr); ok && ns.Has(Callee(c.Info, call)) {
+				found = true
+			}
+			return !found
+		})
+		if found || depth == 0 {
+			return found
+		}
+		InspectNode(e, func(x ast.Node) bool {
+			id, ok := x.(*ast.Ident)
+			if !ok || found {
+				return !found
+			}
+			v, ok := c.Info.Uses[id].(*types.Var)
+			if !ok || v.IsField() || v.Pkg() == nil || v.Parent() == v.Pkg().Scope() {
+				return true
+			}
+			defs := LiveDefs(c.DefsOf(v))
+			n := 0
+			for _, d := range defs {
+				if _, isDecl := d.Stmt.(*ast.ValueSpec); isDecl && d.Rhs == nil {
+					continue
+				}
+				if d.Rhs == nil || !rec(c, d.Rhs, depth-1) {
+					return true
+				}
+				n++
+			}
+			if n > 0 {
+				found = true
+			}
+			return !found
+		})
+		return found
+	}
+	return func(c *Ctx, e ast.Expr) bool { return rec(c, e, 2) }
+}
+
+// CallsAnyDirect is the purely syntactic form of CallsAny.
+func CallsAnyDirect(names ...string) ExprPred {
 	ns := Names(names...)
 	return func(c *Ctx, e ast.Expr) bool {
 		found := false
